@@ -51,8 +51,18 @@ func (in *Interp) dispatch(fn *ssa.Function, name string) handler {
 		}
 	}
 	if h, ok := intrinsics[name]; ok {
+		isSP := spIntrinsics[name]
 		return func(in *Interp, fr *frame, args []value) value {
+			if isSP && fr.caller != nil && in.instrumented(fr.caller.fn) {
+				in.spPending = true
+				if spNoYield[name] {
+					in.spRecord()
+				}
+			}
 			r := h(in, fr, args)
+			if isSP && fr.caller != nil {
+				in.spPost(fr.caller.fn)
+			}
 			if _, nh := r.(notHandledT); nh {
 				return in.interpretBody(fr, fn, args)
 			}
